@@ -153,10 +153,9 @@ def Fmt.num (F : Fmt) (b : Nat) : Int := if F.isNeg b then -(F.mag b : Int) else
 /-- IEEE `a < b` (false when either is NaN) -/
 def Fmt.lt (F : Fmt) (a b : Nat) : Bool := !F.isNaN a && !F.isNaN b && decide (F.num a < F.num b)
 
-/-- Nearest-even rounding of the positive rational `num / den` (`den > 0`) to the format: the
-magnitude bits (`infBits` on overflow). -/
-def roundPos (F : Fmt) (num den : Nat) : Nat :=
-  if num = 0 then 0 else
+/-- Nearest-even rounding of the positive rational `num / den` (`num, den > 0`) to the format, before
+the overflow test: exponent field and fraction as one number. -/
+def roundCore (F : Fmt) (num den : Nat) : Nat :=
   let b : Int := (num.log2 : Int) - (den.log2 : Int)
   let ge : Bool := if b ≥ 0 then decide (den * 2 ^ b.toNat ≤ num) else decide (den ≤ num * 2 ^ (-b).toNat)
   let e : Int := if ge then b else b - 1            -- floor(log2(num/den))
@@ -167,9 +166,14 @@ def roundPos (F : Fmt) (num den : Nat) : Nat :=
   let q := n / d
   let r := n % d
   let m := if 2 * r > d ∨ (2 * r = d ∧ q % 2 = 1) then q + 1 else q
-  let bits := if m < 2 ^ (F.p - 1) then m
-    else (ee - F.emin + 1).toNat * 2 ^ (F.p - 1) + (m - 2 ^ (F.p - 1))
-  if bits ≥ F.infBits then F.infBits else bits
+  if m < 2 ^ (F.p - 1) then m
+  else (ee - F.emin + 1).toNat * 2 ^ (F.p - 1) + (m - 2 ^ (F.p - 1))
+
+/-- Nearest-even rounding of the non-negative rational `num / den` (`den > 0`) to the format: the
+magnitude bits (`infBits` on overflow). -/
+def roundPos (F : Fmt) (num den : Nat) : Nat :=
+  if num = 0 then 0
+  else if roundCore F num den ≥ F.infBits then F.infBits else roundCore F num den
 
 /-- finite bit pattern → `(negative, m, e)` with value `±m·2^e` -/
 def Fmt.frac (F : Fmt) (b : Nat) : Bool × Nat × Int :=
